@@ -19,6 +19,8 @@ def parseOp (l : Line) : Option Op :=
   | "startswith", [k] => k.bytes?.map .startsWith
   -- the caller reads only the first k keys of the result and leaves the rest in the trie's result queue
   | "keyspart", [.int _] => some .keys
+  -- the caller reads the first k keys and puts them back at the end of the result queue (same length, other content)
+  | "keysrot", [.int _] => some .keys
   | "startswithpart", [.int _, k] => k.bytes?.map .startsWith
   | "longestprefix", [k] => k.bytes?.map .longestPrefix
   | _, _ => none
@@ -38,6 +40,7 @@ def renderOut : Out → List Val
 def cutOf (l : Line) : Option Nat :=
   match l.op, l.args with
   | "keyspart", [.int k] => some k.toNat
+  | "keysrot", [.int k] => some k.toNat
   | "startswithpart", [.int k, _] => some k.toNat
   | _, _ => none
 
